@@ -387,6 +387,14 @@ def run_case(case, ctx):
         w = {"kind": "generated", "options": sorted(chosen), "in": case["informat"], "out": outfmt, "pattern_format": case["pattern_format"], "cell": case["cell"],
              "pattern_class": pcls, "n_atoms": len(S), "planted": built["planted"]}
         ok = compare_run(ctx, st, inp, os.path.join(tmp, "cli." + outfmt), os.path.join(tmp, "api." + outfmt), opt, case["s"], w)
+        if ok and ("charges" in chosen or "pp" in chosen):
+            # a history: the command is run again in the same process on the same, untouched input file, this time without the
+            # charges / pair-parameter options - what the first run did to its structure must not show in the second's output
+            opt2 = {k_: v_ for k_, v_ in opt.items() if k_ not in ("charges", "chargefile", "pp")}
+            compare_run(ctx, st, inp, os.path.join(tmp, "cli2." + outfmt), os.path.join(tmp, "api2." + outfmt), opt2, case["s"] + 1,
+                        dict(w, options=sorted(chosen - {"charges", "pp"}), history="second run in the same process on the same input file, without -q / --pp"),
+                        label="second run on the same input file: ")
+            st.count("second_runs_on_the_same_input_file_in_one_process")
         for o in chosen:
             st.seen("option_exercised", o)
         if single:
@@ -431,6 +439,8 @@ def docs_example(ctx, st, case, tmp, rng):
 
 def requirements(stats, tier):
     need = []
+    if stats.get("second_runs_on_the_same_input_file_in_one_process") < (15 if tier == "quick" else 1500):
+        need.append("second runs on the same input file in one process: %d" % stats.get("second_runs_on_the_same_input_file_in_one_process"))
     for o in OPTS[:9] + ["replace_without_find"]:
         if not stats.has("option_exercised_singly", o):
             need.append("option class %s never exercised singly" % o)
